@@ -50,6 +50,23 @@ def sigmaOf (tab : Array Nat) (size dim : Nat) (k i d : Nat) : Nat :=
 def baseClauses (g : G) : List (String × Bool) :=
   (validSym g).map (fun c => ("input-" ++ c.1, c.2)) ++ [("input-connected", SpecC05.connected g)]
 
+/-- the hypotheses of the theorems of Props/C05.lean, evaluated on this input
+    (`monitors_sound`: true ⇒ the hypothesis holds) -/
+def hypBase (s : RawSym) : List (String × Bool) :=
+  [("theorem-hypothesis-holds:ValidTables-of-the-input-symbol",
+      match s.toSym with
+      | .ok y => validTablesB y && decide (1 ≤ y.size) && decide (1 ≤ y.dim)
+      | _ => false)]
+
+def hypTables (s : RawSym) (gd : GroupData) : List (String × Bool) :=
+  match s.toSym with
+  | .ok y =>
+    gd.tables.flatMap fun t =>
+      [ ("theorem-hypothesis-holds:coset-table-inverse-consistent", invConsistentB t),
+        ("theorem-hypothesis-holds:edge-words-inverse-or-mirror-involution", edgeWordsOkB y t gd.e2w),
+        ("theorem-hypothesis-holds:every-edge-word-traces-through-the-table", allTracesDefined y t gd.e2w) ]
+  | _ => [("theorem-hypothesis-holds:input-symbol-builds", false)]
+
 def handler : Handler := fun op inp out =>
   let bad := ("-", fail "driver-cannot-parse-input")
   match op with
@@ -63,14 +80,19 @@ def handler : Handler := fun op inp out =>
         | .ok y => encOut (cover y n sigma)
         | _ => "PANIC"
       let compat := n ≥ 1 && sheetMapCompatible g n sigma
+      let hyp := hypBase s ++
+        [("theorem-hypothesis:SheetCompat-of-the-model-agrees-with-the-spec",
+            match s.toSym with
+            | .ok y => sheetCompatB y.dset n sigma == sheetMapCompatible g n sigma
+            | _ => false)]
       if !compat then
-        (model, check (baseClauses g ++ [("incompatible-sheet-map-must-be-rejected", isPanic out)]))
+        (model, check (baseClauses g ++ hyp ++ [("incompatible-sheet-map-must-be-rejected", isPanic out)]))
       else
         match run P.rawSym out with
         | some c =>
           let cg := specG c
           let divides := orbitLengthsDivideDegrees g cg
-          (model, check (baseClauses g ++
+          (model, check (baseClauses g ++ hyp ++
             [ ("cover-has-the-dimension-of-the-base", cg.dim == g.dim),
               ("cover-has-the-requested-number-of-sheets", sheets g cg == some n),
               ("cover-operations-are-involutions-in-range", cg.involutive),
@@ -91,7 +113,7 @@ def handler : Handler := fun op inp out =>
       match run P.rawSym out with
       | some c =>
         let cg := specG c
-        (model, check (baseClauses g ++ connectedCoveringClauses g cg ++
+        (model, check (baseClauses g ++ hypBase s ++ connectedCoveringClauses g cg ++
           [ ("oriented-cover-is-loopless", cg.loopless),
             ("oriented-cover-is-bipartite", cg.bipartite),
             ("one-sheet-iff-base-oriented-else-two",
@@ -112,7 +134,7 @@ def handler : Handler := fun op inp out =>
       match run P.syms out with
       | some cs =>
         let cgs := cs.map specG
-        (model, check (baseClauses g ++
+        (model, check (baseClauses g ++ hypBase s ++ hypTables s gd ++
           (cgs.flatMap fun cg => connectedCoveringClauses g cg ++
             [("at-most-k-sheets", match sheets g cg with | some j => j ≤ k | none => false)]) ++
           [ ("pairwise-non-isomorphic-as-covers", pairwiseNonIsomorphic g cgs) ] ++
@@ -131,7 +153,7 @@ def handler : Handler := fun op inp out =>
       match run P.rawSym out with
       | some c =>
         let cg := specG c
-        (model, check (baseClauses g ++ connectedCoveringClauses g cg ++
+        (model, check (baseClauses g ++ hypBase s ++ hypTables s gd ++ connectedCoveringClauses g cg ++
           (if op == "universal" then
             [ ("universal-cover-has-no-mirrors", cg.loopless),
               ("universal-cover-is-orientable", cg.bipartite) ] ++
